@@ -215,10 +215,13 @@ def p7(ctx):
             b = ctx.facts.one(r"^%s::Arena::%s$" % (fl, name))
             ev, res = ctx.eval(b, no_inline=NOINLINE)
             names = search_roles(b, res)     # by type and data flow, not by source name
-            need = ("current", "current_node", "current_node_size", "next_offset")
-            if any(n not in names for n in need):
+            must = ("current", "current_node", "next_offset")
+            if any(n not in names for n in must):
                 from facts import AnchorError
-                raise AnchorError("locals %s not found in %s" % (need, b.path))
+                raise AnchorError("locals %s not found in %s" % (must, b.path))
+            # the cached size half is optional: a traversal that never tests the size of `current` (unsync has no marks) need not keep it
+            has_size = "current_node_size" in names
+            need = must + (("current_node_size",) if has_size else ())
             backs = b.back_edges()
             heads = sorted(set(v for _, v in backs))
             if len(heads) != 1:
@@ -231,7 +234,8 @@ def p7(ctx):
                 if env is None:
                     continue
                 n += 1
-                cur, cn, cs, no = (env.get(names[x]) for x in need)
+                cur, cn, no = (env.get(names[x]) for x in must)
+                cs = env.get(names["current_node_size"]) if has_size else None
                 henv = res.env_in.get(h, {})
                 if all(env.get(names[x]) == henv.get(names[x]) for x in need):
                     yield Ob(key_of("C02-P7", b.path, "invariant-edge", n), True, "edge bb%d -> loop head leaves the four cached values unchanged (inductive step trivial)" % p, b.loc(p))
@@ -243,11 +247,11 @@ def p7(ctx):
                     word = ("hload", cn, (), None)
                     ok_load = cn == cur or (tag(cn) != "phi" and term_eq(cn, cur))
                     ok_lo = tag(no) == "lo" and same_place(no[1], cn)
-                    ok_hi = tag(cs) == "hi" and same_place(cs[1], cn)
+                    ok_hi = (not has_size) or (tag(cs) == "hi" and same_place(cs[1], cn))
                 else:
                     ok_load = tag(cn) == "load" and cn[2] == ("heap", cur, ()) or (tag(cn) == "load" and tag(cur) == "ref" and cn[2] == cur[1])
                     ok_lo = no == ("lo", cn)
-                    ok_hi = cs == ("hi", cn)
+                    ok_hi = (not has_size) or cs == ("hi", cn)
                 yield Ob(key_of("C02-P7", b.path, "invariant-edge", n), bool(ok_load and ok_lo and ok_hi),
                          "edge bb%d -> loop head: current_node read from current: %s; next_offset = lo(current_node): %s; size = hi(current_node): %s" % (p, bool(ok_load), bool(ok_lo), bool(ok_hi)), b.loc(p))
             # returns
